@@ -132,6 +132,30 @@ theorem C18_delivered_at_most_once (s : St) (h : Reachable s) :
   have hl := run_lin cs _ (lin_init main)
   exact ⟨hl.once, hl.nodup, fun id hi => (hl.called id hi).1⟩
 
+/-! #### "exactly one is remembered — the first, when arrivals do not interrupt one another" -/
+
+/-- a blocked arrival that finds a remembered signal and is not interrupted between its check and its last step leaves the
+    slot alone (nothing is queued, the frame is gone) -/
+theorem C18_blocked_keeps_first (pr : Bool) (s : St) (sig id : Nat) (intr : Bool) (rest : List Frame)
+    (h : s.stack = .ps sig id .checkPending intr :: rest) (hp : s.pending.1 ≠ 0) (r1 r2 : Bool) :
+    ∃ s1 s2, step pr s (.step r1) = some s1 ∧ step pr s1 (.step r2) = some s2 ∧
+      s2.pending = s.pending ∧ s2.stack = rest ∧ s2.log = s.log ∧ s2.blocked = s.blocked - 1 := by
+  refine ⟨{ s with stack := .ps sig id .dec intr :: rest }, { s with blocked := s.blocked - 1, stack := rest }, ?_, ?_, rfl, rfl, rfl, rfl⟩
+  · simp only [step, h, hp, ↓reduceIte]
+  · simp only [step]
+
+/-- … and one that finds the slot empty is remembered (uninterrupted: check, store, leave) -/
+theorem C18_blocked_first_remembered (pr : Bool) (s : St) (sig id : Nat) (intr : Bool) (rest : List Frame)
+    (h : s.stack = .ps sig id .checkPending intr :: rest) (hp : s.pending.1 = 0) (r1 r2 r3 : Bool) :
+    ∃ s1 s2 s3, step pr s (.step r1) = some s1 ∧ step pr s1 (.step r2) = some s2 ∧ step pr s2 (.step r3) = some s3 ∧
+      s3.pending = (sig, id) ∧ s3.stack = rest ∧ s3.log = s.log ++ [.queued sig id] := by
+  refine ⟨{ s with stack := .ps sig id .setPending intr :: rest },
+    { s with pending := (sig, id), log := s.log ++ [.queued sig id], stack := .ps sig id .dec intr :: rest },
+    { s with pending := (sig, id), log := s.log ++ [.queued sig id], blocked := s.blocked - 1, stack := rest }, ?_, ?_, ?_, rfl, rfl, rfl⟩
+  · simp only [step, h, hp, ↓reduceIte]
+  · simp only [step]
+  · simp only [step]
+
 /-! #### the defect of the original code, exhibited in the same machine (`pristine = true`) -/
 
 /-- the schedule of D11: block; unblock(deliver): blocked_ drops to 0 and the (empty) pending slot is read;
